@@ -49,6 +49,21 @@ def run(ctx):
     P = tables.parse_operand_arms()
     c02.native_roundtrip(ctx, S, rp, P)
     c06.native_module_roundtrip(ctx, rp, loaded_only=True)
+    c02.native_utf8_strings(ctx, rp)
+    # strings: decoded bytes = the bytes in the stream (C11's harness) and packed words = the bytes (C02's harness); the quick tier
+    # samples the two scenario functions natively, the thorough tier runs the CBMC harnesses
+    import kani
+    if ctx.tier == "thorough":
+        res_ = kani.run_many(["k_dec_string_small", "k_string_pack_small"], cap_s=900)
+        kani.settle(ctx, res_, lambda h: h[2:].replace("_small", "") if "pack" in h else h[2:])
+    else:
+        for scen in ("dec_string_small", "string_pack"):
+            found = kani.native_sample(rp, scen, ctx.seed, n=4000)
+            if found:
+                raw, real, role, what = found
+                ctx.violation(role, what + " | native sampling of the scenario", {"cmd": "scenario %s %s" % (scen, raw.hex()), "real": real})
+            else:
+                ctx.ob("strings/native-sample/%s" % scen, True, "4000 structured pseudo-random inputs")
     rp.close()
     ctx.validated = rp.count
     ctx.extra["states"] = ctx.obligations
